@@ -121,6 +121,17 @@ func (s *Solver) Check(extra *Term) string {
 	return res
 }
 
+// CheckT is Check with a temporary (shorter) solver time-out.
+func (s *Solver) CheckT(extra *Term, ms int) string {
+	if ms >= s.timeout {
+		return s.Check(extra)
+	}
+	s.send(fmt.Sprintf("(set-option :timeout %d)\n", ms))
+	r := s.Check(extra)
+	s.send(fmt.Sprintf("(set-option :timeout %d)\n", s.timeout))
+	return r
+}
+
 // Model reads values for the given variables; must be called right after a sat Check (before Pop).
 func (s *Solver) Model(vars []*Term) map[string]*big.Int {
 	m := map[string]*big.Int{}
